@@ -28,6 +28,11 @@ func (s LSt) String() string { return lstDisplay + strconv.Itoa(int(s)) }
 
 type lobj struct{ N int }
 
+type nopLog struct{}
+
+func (nopLog) Debug(ctx context.Context, msg string, meta map[string]string) {}
+func (nopLog) Error(ctx context.Context, err error)                          {}
+
 // recRoles records every role a process asks for and never grants it: no process gets to call an adapter.
 type recRoles struct {
 	mu    sync.Mutex
@@ -132,7 +137,7 @@ func launchAndRecord(c launchCfg) (roles []string, runTwice bool, err error) {
 		}
 	}
 	rr := &recRoles{}
-	opts := []workflow.BuildOption{}
+	opts := []workflow.BuildOption{workflow.WithLogger(nopLog{})}
 	if c.TStore {
 		opts = append(opts, workflow.WithTimeoutStore(memtimeoutstore.New()))
 	}
